@@ -41,6 +41,9 @@ EXTENDS Integers, Sequences, FiniteSets, TLC, Json
 
 CONSTANTS MaxLen, Kinds, Wide      \* Wide: the larger value domains (thorough tier)
 
+\* sensitivity guard: the wrong reset of Sum that keeps the numeric kind of the total (type(total)(0));
+\* Accumulators_wrongnum.cfg overrides it with TRUE and TLC must refute FreshEquiv / Aggregate
+WrongNumReset == FALSE
 None == -1000
 B == 32768
 Unit == 72
@@ -95,6 +98,43 @@ CarryZero(p, i, hi, carry) ==
   ELSE LET t == Coef(p, i) + carry IN t % B = 0 /\ CarryZero(p, i + 1, hi, t \div B)
 PolyIsZero(p) == DOMAIN p = {} \/ CarryZero(p, SetMin(DOMAIN p), SetMax(DOMAIN p), 0)
 PolyEq(p, q) == PolyIsZero(PolySub(p, q))
+
+(***************************************************************************)
+(* Numbers of different Python kinds (element kind "NSum": Sum filled with *)
+(* ints, big ints, floats and Fraction-like numbers, also across a reset). *)
+(* A number is [hi, lo, nk]: the non-negative value (hi * 2^27 + lo) / 2   *)
+(* (counted in halves, so that 0.5, Fraction(3, 2), 2^53 + 1 are exact)    *)
+(* and its kind nk: "int" (exact, unbounded), "frac" (exact,               *)
+(* fractions.Fraction) or "float" (a double: 53 significant bits).         *)
+(* Python's +: int + int is an int, with a Fraction a Fraction, both       *)
+(* exact; with a float both operands are converted to the nearest double   *)
+(* (ties to even) and the sum is rounded again.                            *)
+(***************************************************************************)
+NW == 134217728         \* 2^27
+RECURSIVE Pow2(_)
+Pow2(n) == IF n = 0 THEN 1 ELSE 2 * Pow2(n - 1)
+BitLen(n) == CHOOSE b \in 1..30 : Pow2(b - 1) <= n /\ n < Pow2(b)
+NV(hi, lo, nk) == [hi |-> hi, lo |-> lo, nk |-> nk]
+NZero == NV(0, 0, "int")
+\* the nearest double of an exact number (round half to even); hi < 2^30
+NRound(x) ==
+  IF x.hi = 0 \/ BitLen(x.hi) <= 26 THEN x
+  ELSE LET m == Pow2(BitLen(x.hi) - 26)          \* the bits below the 53rd
+           r == x.lo % m
+           q == x.lo \div m
+           up == 2 * r > m \/ (2 * r = m /\ q % 2 = 1)
+           lo2 == (x.lo - r) + (IF up THEN m ELSE 0)
+       IN [x EXCEPT !.hi = x.hi + lo2 \div NW, !.lo = lo2 % NW]
+NJoin(a, b) == IF "float" \in {a, b} THEN "float" ELSE IF "frac" \in {a, b} THEN "frac" ELSE "int"
+NPlus(a, b, nk) == NV(a.hi + b.hi + (a.lo + b.lo) \div NW, (a.lo + b.lo) % NW, nk)
+\* a + b as Python computes it
+NAdd(a, b) == LET nk == NJoin(a.nk, b.nk) IN
+              IF nk = "float" THEN NRound(NPlus(NRound(a), NRound(b), nk)) ELSE NPlus(a, b, nk)
+RECURSIVE NFold(_, _)          \* Python's sum(values, start): left to right
+NFold(acc, ns) == IF ns = <<>> THEN acc ELSE NFold(NAdd(acc, Head(ns)), Tail(ns))
+RECURSIVE NExact(_)            \* the exact sum and the join of the kinds
+NExact(ns) == IF ns = <<>> THEN NZero
+              ELSE LET t == NExact(Tail(ns)) IN NPlus(Head(ns), t, NJoin(Head(ns).nk, t.nk))
 
 (***************************************************************************)
 (* Histogram cells (lower edge included, upper excluded, outside: 0)       *)
@@ -238,8 +278,12 @@ GroupVals(k) ==
   LET base == IF Nested(k) THEN (IF Wide THEN NestValsMore ELSE NestVals)
               ELSE (IF Wide THEN NumValsMore ELSE NumVals) IN
   IF Root \in GInc(k) \/ GInc(k) = {} THEN base ELSE {v \in base : \E p \in GInc(k) : Resolves(v.c, p)}
+\* 3, 0.5, the big int 2^53 + 1 (not a double), Fraction(3, 2), the double 2.0^53 (2.0^53 + 3 rounds to 2^53 + 4)
+NumKindVals == {P(NV(0, 6, "int")), V(NV(0, 1, "float"), CA), P(NV(NW, 2, "int")), V(NV(0, 3, "frac"), CB),
+                P(NV(NW, 0, "float"))}
 ValsOf(k) ==
-  CASE k.t = "DSum" -> IF Wide THEN DValsMore ELSE DVals
+  CASE k.t = "NSum" -> NumKindVals
+    [] k.t = "DSum" -> IF Wide THEN DValsMore ELSE DVals
     [] k.t = "Mean" -> IF k.inner = "DSum" THEN (IF Wide THEN DValsMore ELSE DVals)
                        ELSE (IF Wide THEN NumValsMore ELSE NumVals)
     [] k.t = "Vec" -> VecVals(k.vs)
@@ -265,6 +309,7 @@ CountA == CountO("a", 0, "")
 SumO(start, opt) == [t |-> "Sum", start |-> start, opt |-> opt]
 Sum0 == SumO(0, "")
 Sum5 == SumO(5, "")
+NSumK == [t |-> "NSum"]        \* Sum() filled with numbers of every Python kind
 DSumK == [t |-> "DSum", dstart |-> <<>>]
 DSum5 == [t |-> "DSum", dstart |-> D(72, 5)]          \* DSum(total=5)
 MeanO(inner, poe, opt) == [t |-> "Mean", inner |-> inner, poe |-> poe, opt |-> opt]
@@ -325,7 +370,7 @@ Hist2(var) == [t |-> "Hist2", var |-> var, edges |-> <<0, 1, 2, 3>>, edges2 |-> 
                            [] var = "make" -> <<<<5, 5>>, <<5, 5>>, <<5, 5>>>>]
 GraphI(scale, sort, ipts, ictx) == [t |-> "Graph", scale |-> scale, sort |-> sort, ipts |-> ipts, ictx |-> ictx]
 GraphK(scale, sort) == GraphI(scale, sort, <<>>, E)
-AllKinds == {Count0, Count2, Sum0, Sum5, DSumK,
+AllKinds == {Count0, Count2, Sum0, Sum5, DSumK, NSumK,
              MeanK("py", FALSE), MeanK("py", TRUE), MeanK("DSum", FALSE),
              VMC(TRUE, FALSE), VMC(FALSE, FALSE), VMC(TRUE, TRUE),
              Vec(Sum0), Vec(MeanK("py", FALSE)),
@@ -366,6 +411,8 @@ GroupBysOf(k) == IF k.t = "GroupBy" THEN {k}
                  ELSE IF k.t = "Vec" THEN UNION {GroupBysOf(k.inners[i]) : i \in 1..Len(k.inners)} ELSE {}
 ASSUME \A k \in AllKinds \cup MoreKinds : \A g \in GroupBysOf(k) : ValidCfg(g)
 ThoroughKinds == AllKinds \cup MoreKinds
+NumKinds == {NSumK}
+TrueConst == TRUE
 RECURSIVE FreshKind(_)
 FreshKind(k) == CASE k.t = "Count" -> [k EXCEPT !.start = 0]
                   [] k.t = "Sum" -> [k EXCEPT !.start = 0]
@@ -382,6 +429,7 @@ RECURSIVE InitState(_)
 InitState(k) ==
   CASE k.t = "Count" -> [n |-> k.start, ctx |-> E]
     [] k.t = "Sum" -> [total |-> k.start, ctx |-> E]
+    [] k.t = "NSum" -> [total |-> NZero, ctx |-> E]
     [] k.t = "DSum" -> [total |-> PolyOf(k.dstart), ctx |-> E]
     [] k.t = "Mean" -> [sum |-> IF k.inner = "DSum" THEN <<>> ELSE 0, count |-> 0, ctx |-> E]
     [] k.t = "VMC" -> [sumsq |-> 0, sum |-> 0, count |-> 0, ctx |-> E]
@@ -396,6 +444,7 @@ RECURSIVE FillState(_, _, _)
 FillState(k, s, v) ==
   CASE k.t = "Count" -> [n |-> s.n + 1, ctx |-> v.c]
     [] k.t = "Sum" -> [total |-> s.total + v.d, ctx |-> v.c]
+    [] k.t = "NSum" -> [total |-> NAdd(s.total, v.d), ctx |-> v.c]
     [] k.t = "DSum" -> [total |-> PolyAdd(s.total, PolyOf(v.d)), ctx |-> v.c]
     [] k.t = "Mean" -> [sum |-> IF k.inner = "DSum" THEN PolyAdd(s.sum, PolyOf(v.d))
                                 ELSE IF k.inner = "Count" THEN s.sum + 1 ELSE s.sum + v.d,
@@ -429,6 +478,7 @@ RECURSIVE Result(_, _)
 Result(k, s) ==
   CASE k.t = "Count" -> Ok(<<V(s.n, Put(s.ctx, k.name, s.n))>>)
     [] k.t = "Sum" -> Ok(<<Out(s.total, s.ctx)>>)
+    [] k.t = "NSum" -> Ok(<<Out(s.total, s.ctx)>>)
     [] k.t = "DSum" -> Ok(<<Out(PolySeq(s.total), s.ctx)>>)
     [] k.t = "Mean" ->
          IF s.count = 0 THEN (IF k.poe THEN Ok(<<>>) ELSE ZeroDiv)
@@ -472,6 +522,7 @@ RECURSIVE ResetState(_, _)
 ResetState(k, s) ==
   CASE k.t = "Count" -> [n |-> 0, ctx |-> E]
     [] k.t = "Sum" -> [total |-> 0, ctx |-> E]
+    [] k.t = "NSum" -> [total |-> IF WrongNumReset THEN [NZero EXCEPT !.nk = s.total.nk] ELSE NZero, ctx |-> E]
     [] k.t = "DSum" -> [total |-> <<>>, ctx |-> E]
     [] k.t = "Mean" -> [sum |-> IF k.inner = "DSum" THEN <<>> ELSE 0, count |-> 0, ctx |-> E]
     [] k.t = "VMC" -> [sumsq |-> 0, sum |-> 0, count |-> 0, ctx |-> E]
@@ -494,6 +545,7 @@ Expected(k, fs) ==
   LET n == Len(fs)  c == LastCtx(fs)  ds == Data(fs) IN
   CASE k.t = "Count" -> Ok(<<V(k.start + n, Put(c, k.name, k.start + n))>>)
     [] k.t = "Sum" -> Ok(<<Out(k.start + SumSeq(ds), c)>>)
+    [] k.t = "NSum" -> Ok(<<Out(NFold(NZero, ds), c)>>)        \* the int 0 is where a new Sum starts
     [] k.t = "DSum" -> Ok(<<Out(PolySeq(PolySum(<<k.dstart>> \o ds)), c)>>)
     [] k.t = "Mean" ->
          IF n = 0 THEN (IF k.poe THEN Ok(<<>>) ELSE ZeroDiv)
@@ -554,8 +606,9 @@ ComputeA == /\ res' = Result(ekind, st) /\ st' = ComputeState(ekind, st)
 ResetA == /\ st' = ResetState(ekind, st) /\ ekind' = FreshKind(kind)
           /\ since' = <<>> /\ op' = "reset" /\ UNCHANGED <<kind, res>>
 
+FillFits(v) == kind.t = "NSum" => st.total.hi + v.d.hi < 268435456       \* BitLen is defined below 2^30
 Fill == /\ Len(h) < MaxLen
-        /\ \E v \in ValsOf(kind) : FillA(v) /\ h' = Append(h, [op |-> "f", x |-> v])
+        /\ \E v \in ValsOf(kind) : FillFits(v) /\ FillA(v) /\ h' = Append(h, [op |-> "f", x |-> v])
 Compute == /\ Len(h) < MaxLen /\ ComputeA /\ h' = Append(h, [op |-> "c", x |-> res'])
 \* Mean over a sum_seq without reset: reset() raises LenaAttributeError and changes nothing
 ResetRaises == /\ op' = "resetx" /\ UNCHANGED <<kind, ekind, st, since, res>>
@@ -606,6 +659,15 @@ VarianceIdentity ==
 Rev(s) == [j \in 1..Len(s) |-> s[Len(s) + 1 - j]]
 DSumOrderFree ==
   ekind.t = "DSum" => PolyEq(st.total, PolySum(Rev(<<ekind.dstart>> \o Data(FillsOf(since)))))
+
+\* while no float was filled since the last reset the total is the exact sum, an int or a Fraction;
+\* with a float it is a double
+NumericKinds ==
+  ekind.t = "NSum" =>
+    LET ds == Data(FillsOf(since))  ex == NExact(ds) IN
+    /\ st.total.nk = ex.nk
+    /\ ex.nk # "float" => st.total = ex
+    /\ ex.nk = "float" => NRound(st.total) = st.total
 
 Emitted == (Len(h) = MaxLen) => PrintT(ToJson([kind |-> kind, h |-> h]))
 =============================================================================
